@@ -547,6 +547,27 @@ func TestGvcReplay(t *testing.T) {
 	}
 }
 `}})
+	clauseScenarios = append(clauseScenarios, clauseScenario{"fingerprint.(*TimestampChecker).IsUpToDate", "genOK", scenario{pkgRel: "", what: "method timestamp: deleting the generated file does not make the task run again",
+		src: gvcHeader + `
+func TestGvcReplay(t *testing.T) {
+	dir := t.TempDir()
+	gvcWrite(t, dir, "Taskfile.yml", "version: '3'\nsilent: true\ntasks:\n  gen:\n    method: timestamp\n    sources: [src.txt]\n    generates: [out.txt]\n    cmds: [\"cp src.txt out.txt\"]\n")
+	gvcWrite(t, dir, "src.txt", "1")
+	var out bytes.Buffer
+	for i := 0; i < 2; i++ {
+		if err := gvcExec(t, dir, &out).Run(context.Background(), &task.Call{Task: "gen"}); err != nil {
+			t.Fatalf("run %d: %v", i, err)
+		}
+	}
+	os.Remove(filepath.Join(dir, "out.txt"))
+	if err := gvcExec(t, dir, &out).Run(context.Background(), &task.Call{Task: "gen"}); err != nil {
+		t.Fatalf("run after delete: %v", err)
+	}
+	if _, err := os.Stat(filepath.Join(dir, "out.txt")); err != nil {
+		t.Fatalf("GVC-REPLAY-REPRODUCED: the generated file was deleted, the next run reported the task up to date and did not rebuild it (output %q)", out.String())
+	}
+}
+`}})
 	clauseScenarios = append(clauseScenarios, clauseScenario{"fingerprint.(*TimestampChecker).OnError", "stampPath", scenario{pkgRel: "", what: "method timestamp: a failed run leaves the stamp file, the next run reports the task up to date",
 		src: gvcHeader + `
 func TestGvcReplay(t *testing.T) {
